@@ -173,6 +173,7 @@ func checkC12(p *Prog, r *Report) {
 	queryFieldUse(p, r, kp, "x/pnft", 6, 7)
 	// D5
 	pnftViewsAgree(p, r, kp)
+	checkInitGenesisCallers(p, r, "C12", "x/pnft")
 	wireKeyOwnership(p, r, BuildWire(p), "C12", "pnft", []string{"x/pnft/keeper.NewKeeper"}, "denoms and tokens")
 }
 
